@@ -903,9 +903,13 @@ def run_generators(ctx):
     ctx.set_exhaustive('initial-population', False)
     # custom generation function: a scripted stream of small graphs incl. pairs that are == without
     # being the same object (fresh uids, other listing order, other multiplicity of identical sinks)
-    scripted = [{'pop_size': r.choice([1, 2, 3, 4, 5, 6, 8]), 'seed': r.randrange(10 ** 6), 'length': r.choice([4, 8, 16, 30])}
-                for _ in range(ctx.budget(120, 1500))]
-    scripted.append({'pop_size': 12, 'seed': 1, 'length': 30})       # more requested than distinct graphs exist
+    scripted = []
+    for _ in range(ctx.budget(120, 1500)):
+        length = r.choice([4, 8, 16, 30])
+        scripted.append({'pop_size': r.randint(1, max(1, min(6, length // 3))), 'seed': r.randrange(10 ** 6),
+                         'length': length})
+    for ps, length in [(12, 30), (4, 4), (8, 16)]:                    # more requested than distinct graphs exist
+        scripted.append({'pop_size': ps, 'seed': r.randrange(10 ** 6), 'length': length})
     eval_scripted(ctx, 'population-scripted', scripted, canary=True)
     ctx.set_exhaustive('population-scripted', False)
     for case, o in [m for m in meta if m[1]['result'] and len(m[1]['result']) >= 3][:1]:
